@@ -82,6 +82,8 @@ def encode_value(v, pos='top'):
         out = _bytes_result(b)
         if out['r'] != 'ok':
             raise TypeError('encoder returned ' + type(b).__name__)
+    except observers.GiveUp:
+        raise
     except observers.BudgetExceeded:
         return {'pos': pos, 'in': pre, 'out': dict(observers.HANG), 'dec': {'r': 'skip'}, 'out2': {'r': 'skip'}, 'post': abstract(v)}
     except Exception as e:  # noqa
@@ -138,6 +140,8 @@ def _call(fn, *a):
     try:
         with observers.wall():
             return _bytes_result(fn(*a))
+    except observers.GiveUp:
+        raise
     except observers.BudgetExceeded:
         return dict(observers.HANG)
     except Exception as e:  # noqa
@@ -174,6 +178,8 @@ def encode_arg(ty, v):
             with observers.wall():
                 n, w = decode.by_type(bytes(out['b']), {'table': 'table'}.get(ty, ty))
             dec = {'r': 'ok', 'n': as_int(n), 'v': abstract(w)}
+        except observers.GiveUp:
+            raise
         except observers.BudgetExceeded:
             dec = dict(observers.HANG)
         except Exception as e:  # noqa
